@@ -211,6 +211,74 @@ fn shape(p: &Policy) -> String {
     )
 }
 
+/// the same JSON document with every character of every string written as a \uXXXX escape
+fn escape_all_strings(text: &str) -> String {
+    let mut out = String::with_capacity(text.len() * 4);
+    let mut in_str = false;
+    let mut chars = text.chars();
+    while let Some(c) = chars.next() {
+        if !in_str {
+            if c == '"' {
+                in_str = true;
+            }
+            out.push(c);
+            continue;
+        }
+        match c {
+            '"' => {
+                in_str = false;
+                out.push(c);
+            }
+            '\\' => {
+                // an escape of the encoder is kept as it is
+                out.push(c);
+                if let Some(n) = chars.next() {
+                    out.push(n);
+                    if n == 'u' {
+                        for _ in 0..4 {
+                            if let Some(h) = chars.next() {
+                                out.push(h);
+                            }
+                        }
+                    }
+                }
+            }
+            c => {
+                let mut buf = [0u16; 2];
+                for u in c.encode_utf16(&mut buf) {
+                    out.push_str(&format!("\\u{:04x}", u));
+                }
+            }
+        }
+    }
+    out
+}
+
+/// every way a user of serde_json can hand the document to the decoder must give the same value
+fn check_policy_decoding_routes(r: &mut Report, p: &Policy, text: &str) {
+    let routes: Vec<(&str, Box<dyn Fn() -> Result<Policy, String> + std::panic::UnwindSafe>)> = vec![
+        ("from_slice", Box::new({ let t = text.to_owned(); move || serde_json::from_slice::<Policy>(t.as_bytes()).map_err(|e| e.to_string()) })),
+        ("from_reader", Box::new({ let t = text.to_owned(); move || serde_json::from_reader::<_, Policy>(std::io::Cursor::new(t.clone().into_bytes())).map_err(|e| e.to_string()) })),
+        ("from_value", Box::new({ let t = text.to_owned(); move || serde_json::from_str::<Value>(&t).and_then(serde_json::from_value::<Policy>).map_err(|e| e.to_string()) })),
+        ("escaped-strings", Box::new({ let t = escape_all_strings(text); move || serde_json::from_str::<Policy>(&t).map_err(|e| e.to_string()) })),
+        ("escaped-strings/from_reader", Box::new({ let t = escape_all_strings(text); move || serde_json::from_reader::<_, Policy>(std::io::Cursor::new(t.clone().into_bytes())).map_err(|e| e.to_string()) })),
+        ("pretty", Box::new({ let t = serde_json::from_str::<Value>(text).ok().and_then(|v| serde_json::to_string_pretty(&v).ok()).unwrap_or_else(|| text.to_owned()); move || serde_json::from_str::<Policy>(&t).map_err(|e| e.to_string()) })),
+    ];
+    for (name, f) in routes {
+        match std::panic::catch_unwind(f) {
+            Err(pn) => r.violated(format!("C20/policy/roundtrip/panic/{name}"), json!({"kind": "policy-route", "json": text, "route": name, "panic": panic_message(&pn)})),
+            Ok(Err(e)) => r.violated(format!("C20/policy/roundtrip/decode-error/{name}"), json!({"kind": "policy-route", "json": text, "route": name, "error": e})),
+            Ok(Ok(back)) => {
+                if back == *p {
+                    r.held(format!("policy-route/{name}"));
+                } else {
+                    r.violated(format!("C20/policy/roundtrip/value-changed/{name}"), json!({"kind": "policy-route", "json": text, "route": name, "decoded": format!("{back:?}"), "expected": format!("{p:?}")}));
+                }
+            }
+        }
+    }
+}
+
 fn check_policy_roundtrip(r: &mut Report, p: &Policy) {
     let res = std::panic::catch_unwind(|| {
         let text = serde_json::to_string(p).map_err(|e| format!("encode: {e}"))?;
@@ -234,6 +302,7 @@ fn check_policy_roundtrip(r: &mut Report, p: &Policy) {
             } else {
                 r.held(format!("policy-roundtrip/{}", shape(p)));
                 r.sample("policy", || json!({"policy_json": v1}));
+                check_policy_decoding_routes(r, p, &text);
             }
         }
     }
@@ -428,7 +497,7 @@ pub fn run(ctx: &RunCtx) -> i32 {
     total.note(format!("exhaustive: {} patterns (length <= {pl}) x {} inputs (length <= {sl})", pats.len() - 1, inputs.len()));
 
     // random part: longer, unicode, sets
-    let n_rand = ctx.tier.sz(300_000, 8_000_000);
+    let n_rand = ctx.tier.sz(2_000_000, 8_000_000);
     let chunk = 2000u64;
     let rnd = par_run(ctx.workers, n_rand.div_ceil(chunk), |j, r| {
         let mut g = Rng::new(derive_seed(ctx.seed, "C20/random", j));
@@ -471,7 +540,7 @@ pub fn run(ctx: &RunCtx) -> i32 {
     total.merge(rnd);
 
     // policies
-    let n_pol = ctx.tier.sz(20_000, 800_000);
+    let n_pol = ctx.tier.sz(100_000, 800_000);
     let pol = par_run(ctx.workers, n_pol.div_ceil(100), |j, r| {
         let mut g = Rng::new(derive_seed(ctx.seed, "C20/policy", j));
         for _ in 0..100 {
